@@ -52,9 +52,19 @@ Key(P) == P.proto \o "/" \o ToString(P.seq)
 ElapsedV1(toH, toT, h, t) == (toH # 0 /\ h >= toH) \/ (toT # 0 /\ t >= toT)
 ElapsedV2(toS, t)         == (t \div 2) >= toS
 
+\* Receive behaviour of the destination application encoded in the packet data / payload value:
+\* outcome ok | fail | async after WritesOf(d) application state writes (store keys and bank mints).
+\* Unknown data makes the mock applications fail without writing.
+OutcomeOf(d) == IF d \in {"ok", "ok1", "ok2"} THEN "ok"
+                ELSE IF d \in {"async", "async1", "async2"} THEN "async" ELSE "fail"
+WritesOf(d)  == IF d \in {"ok1", "fail1", "async1"} THEN 1
+                ELSE IF d \in {"ok2", "fail2", "async2"} THEN 2
+                ELSE IF d = "fail3" THEN 3 ELSE 0
+AppWrites(P, idxs) == UNION { { <<Key(P), i, w>> : w \in 1..WritesOf(P.data[i]) } : i \in idxs }
+
 \* acknowledgement values: sequences of app acks; v1 <<"ok">> | <<"err">>,
 \* v2 <<"ok",...>> (one per payload) | <<"SENTINEL">>
-AckOfV1(d) == IF d = "ok" THEN <<"ok">> ELSE <<"err">>
+AckOfV1(d) == IF OutcomeOf(d) = "ok" THEN <<"ok">> ELSE <<"err">>
 
 (***************************************************************************)
 (* State                                                                   *)
@@ -79,7 +89,7 @@ InitProv == [chan |-> IF KIND = "V2" THEN "NONE" ELSE "OPEN",
 
 \* After the harness' set-up: A is one block ahead of what B's client knows.
 InitChain(h0) == [h |-> h0, bt |-> [p \in 0..h0 |-> p + 1], hist |-> [p \in 0..h0 |-> InitProv],
-                  cur |-> InitProv, cons |-> {0}, frozen |-> FALSE, log |-> <<>>]
+                  cur |-> InitProv, cons |-> {0}, frozen |-> FALSE, log |-> <<>>, app |-> {}]
 
 InitState == [now |-> 2, ch |-> [c \in Chains |-> InitChain(1)]]
 
@@ -110,8 +120,11 @@ Commit(S, c, t, cur2, cons2, frozen2, log2) ==
         cs2 == [h |-> h2,
                 bt |-> [p \in 0..h2 |-> IF p = h2 THEN t ELSE cs.bt[p]],
                 hist |-> [p \in 0..h2 |-> IF p = h2 THEN cs.cur ELSE cs.hist[p]],
-                cur |-> cur2, cons |-> cons2, frozen |-> frozen2, log |-> log2]
+                cur |-> cur2, cons |-> cons2, frozen |-> frozen2, log |-> log2, app |-> cs.app]
     IN [now |-> t, ch |-> [S.ch EXCEPT ![c] = cs2]]
+
+\* application state of chain c extended by the given writes
+AddApp(S2, c, writes) == [S2 EXCEPT !.ch[c].app = @ \cup writes]
 
 NoChange(S, c, t) == Commit(S, c, t, S.ch[c].cur, S.ch[c].cons, S.ch[c].frozen, S.ch[c].log)
 Err(S, c, t)  == [res |-> "err",  S |-> NoChange(S, c, t)]
@@ -198,12 +211,15 @@ DoRecvV1(S, c, a, t) ==
     ELSE IF KIND = "ORDERED" /\ P.seq < cur.nr THEN Noop(S, c, t)
     ELSE IF KIND = "ORDERED" /\ P.seq # cur.nr THEN Err(S, c, t)
     ELSE LET d == P.data[1]
+             o == OutcomeOf(d)
              c1 == IF KIND = "UNORDERED" THEN [cur EXCEPT !.receipt = @ \cup {k}]
                                          ELSE [cur EXCEPT !.nr = @ + 1]
-             c2 == IF d = "async" THEN c1 ELSE [c1 EXCEPT !.ack = (k :> AckOfV1(d)) @@ @]
+             c2 == IF o = "async" THEN c1 ELSE [c1 EXCEPT !.ack = (k :> AckOfV1(d)) @@ @]
+             S2 == WithCur(S, c, t, c2, Append(S.ch[c].log, [ev |-> "recv", p |-> P, a |-> <<>>]))
          IN \* a synchronous ack for a key that already has one makes the tx fail
-            IF d # "async" /\ k \in DOMAIN cur.ack THEN Err(S, c, t)
-            ELSE Ok(WithCur(S, c, t, c2, Append(S.ch[c].log, [ev |-> "recv", p |-> P, a |-> <<>>])))
+            IF o # "async" /\ k \in DOMAIN cur.ack THEN Err(S, c, t)
+            \* E_AppStateOnOutcome: writes persist for success / async, are discarded on an error ack
+            ELSE Ok(IF o = "fail" THEN S2 ELSE AddApp(S2, c, AppWrites(P, {1})))
 
 AllOk(data) == \A i \in DOMAIN data : data[i] = "ok"
 \* index of the first payload that does not succeed (0 if none)
@@ -223,16 +239,16 @@ DoRecvV2(S, c, a, t) ==
     ELSE IF ~(CanVerify(S, c, a.ph, t) /\ G_CommitProven(S, c, P, a.ph)) THEN Err(S, c, t)
     ELSE LET n == Len(P.data)
              \* callbacks run in payload order and stop at the first failure
-             ff == IF \E i \in 1..n : P.data[i] = "fail" THEN MinOf({ i \in 1..n : P.data[i] = "fail" }) ELSE 0
-             fa == IF \E i \in 1..n : P.data[i] = "async" THEN MinOf({ i \in 1..n : P.data[i] = "async" }) ELSE 0
+             ff == IF \E i \in 1..n : OutcomeOf(P.data[i]) = "fail" THEN MinOf({ i \in 1..n : OutcomeOf(P.data[i]) = "fail" }) ELSE 0
+             fa == IF \E i \in 1..n : OutcomeOf(P.data[i]) = "async" THEN MinOf({ i \in 1..n : OutcomeOf(P.data[i]) = "async" }) ELSE 0
              c1 == [cur EXCEPT !.receipt = @ \cup {k}]
              lg == Append(S.ch[c].log, [ev |-> "recv", p |-> P, a |-> <<>>])
          IN IF fa # 0 /\ (ff = 0 \/ fa < ff) /\ n > 1 THEN Err(S, c, t)   \* async with several payloads
             ELSE IF ff # 0 THEN
                  Ok(WithCur(S, c, t, [c1 EXCEPT !.ack = (k :> <<"SENTINEL">>) @@ @], lg))
             ELSE IF fa # 0 THEN
-                 Ok(WithCur(S, c, t, [c1 EXCEPT !.async = @ \cup {k}], lg))
-            ELSE Ok(WithCur(S, c, t, [c1 EXCEPT !.ack = (k :> [i \in 1..n |-> "ok"]) @@ @], lg))
+                 Ok(AddApp(WithCur(S, c, t, [c1 EXCEPT !.async = @ \cup {k}], lg), c, AppWrites(P, 1..n)))
+            ELSE Ok(AddApp(WithCur(S, c, t, [c1 EXCEPT !.ack = (k :> [i \in 1..n |-> "ok"]) @@ @], lg), c, AppWrites(P, 1..n)))
 
 (***************************************************************************)
 (* Asynchronous acknowledgement written by the application                 *)
@@ -354,6 +370,13 @@ DoCloseConfirm(S, c, a, t) ==
     ELSE Ok(WithCur(S, c, t, [S.ch[c].cur EXCEPT !.chan = "CLOSED"], S.ch[c].log))
 
 (***************************************************************************)
+(* Genesis export / import (C44): exporting the module's genesis, wiping   *)
+(* its store and initialising it from the export is the identity on the    *)
+(* abstract state, in every reachable state.                               *)
+(***************************************************************************)
+DoExportImport(S, c, a, t) == Ok(NoChange(S, c, t))
+
+(***************************************************************************)
 (* Step: action record a = [a |-> name, c |-> chain, dt |-> 1.., ...]      *)
 (***************************************************************************)
 Step(S, a) ==
@@ -374,6 +397,7 @@ Step(S, a) ==
       [] a.a = "TimeoutV2"      -> DoTimeoutV2(S, c, a, t)
       [] a.a = "CloseInit"      -> DoCloseInit(S, c, a, t)
       [] a.a = "CloseConfirm"   -> DoCloseConfirm(S, c, a, t)
+      [] a.a = "ExportImport"   -> DoExportImport(S, c, a, t)
 
 (***************************************************************************)
 (* Properties over the application callback log (state invariants)         *)
